@@ -98,6 +98,10 @@ def length(ev, x):
     x = strip_fresh(x)
     while isinstance(x, App) and x.fn in ("sort", "fresh", "asarray", "flip") and x.args:
         x = strip_fresh(x.args[0])
+    if isinstance(x, App) and x.fn == "ite":
+        la, lb = length(ev, x.args[1]), length(ev, x.args[2])
+        if same(la, lb):
+            return la
     if isinstance(x, App) and x.fn == "concat":
         tot = Const(0)
         for a in x.args:
@@ -495,6 +499,8 @@ def np_call(ev, name, args, kwargs, node):
         return r
     if name == "isclose" and len(A) == 2 and not kwargs and same(as_v(ev, A[0]), as_v(ev, A[1])):
         return TRUE
+    if name == "finfo":
+        return App("finfo", ())
     if name in PURE_UNINTERPRETED:
         return App(name, [as_v(ev, a) for a in A], _kw(ev, kwargs))
     ev.note_unmodelled("numpy." + name, node)
@@ -617,6 +623,8 @@ def value_attr(ev, v, name, node):
         if name in ("shape", "ndim", "size"):
             return shape_fact(name, base)
         return App("attr:" + name, (v,))
+    if isinstance(v, App) and v.fn == "finfo" and name in ("eps", "tiny", "resolution"):
+        return Sym("machine_" + name, ("float", "positive"))
     if isinstance(v, FuncV) and name in ("__name__", "__doc__", "__wrapped__"):
         return Const(v.fi.name)
     return BoundExt(v, name)
